@@ -13,6 +13,7 @@ event), the statements of csi() in front of its switch (the parameter clamp: `bo
 No arm of the dispatch path is hand-transcribed any more.
 -/
 import VaxisModel.Props.C05Bodies
+import VaxisModel.Props.C05
 
 namespace VaxisModel.Props.C05Dispatch
 open VaxisModel.Model.Emu VaxisModel.Model.EmuBody VaxisModel.Lemmas.Emu VaxisModel.Lemmas.EmuBody VaxisModel.Gen
@@ -337,6 +338,19 @@ theorem update_is_generated (e : Emu) (op : EOp) (hostEmpty : Bool) (h : kindOf 
   | dcs => rfl
   | apc => rfl
   | resize w h' => exact absurd rfl h
+
+/-- **The property's safety clause, stated of update() as translated from the source**: for every good state, size 1×1..65535²,
+    and every parsed sequence (any parameters, any payload, either answer of the host), `updateGen` — the regenerated type switch
+    running the regenerated dispatchers and bodies — neither panics nor hangs, re-establishes the invariant, and posts at most
+    one event. -/
+theorem translated_update_safe {e : Emu} {rows cols : Nat} (h : EmuInv e rows cols) (d : Dim rows cols) (op : EOp) (hostEmpty : Bool)
+    (hk : kindOf op ≠ none) :
+    ∃ r, updateGen e op hostEmpty = .ok r ∧ EmuInv r.1 rows cols ∧ r.2 ≤ 1 := by
+  have hop : ∀ w hh, op ≠ .resize w hh := by
+    intro w hh hc; subst hc; exact hk rfl
+  obtain ⟨r, hr, hi⟩ := VaxisModel.Props.C05.emu_safe h d op hop
+  refine ⟨r, ?_, hi, VaxisModel.Props.C05.events_per_op_le_one e op r hr⟩
+  rw [← update_is_generated e op hostEmpty hk]; exact hr
 
 /-- the shape of update() the table was read from: lock, the three defers, then the type switch as the last statement; exactly
     one arm per kind of sequence (in any order), none unknown -/
